@@ -326,18 +326,34 @@ inductive Op where
 
 inductive Out where
   | ok
-  | recv (ackOk : Bool) (bk e esc tm m : Nat) (cs : Option (Option Ch × Nat))
+  | recv (ackOk : Bool) (bk e esc tm sup m : Nat) (cs : Option (Option Ch × Nat))
   | sent (seq e bk esc tm : Nat) (rel : List (Ch × Seq))
   | fail
   | noop (rel : List (Ch × Seq))
   | stuck (rel : List (Ch × Seq))
-  | done (e bk v esc tm : Nat) (rel : List (Ch × Seq))
+  | done (e bk v esc tm sup : Nat) (rel : List (Ch × Seq))
   | badOp
   deriving DecidableEq, Repr
 
-def Out.isRecv (o : Out) (ack : Bool) : Prop := ∃ bk e esc tm m cs, o = .recv ack bk e esc tm m cs
-def Out.isDone (o : Out) : Prop := ∃ e bk v esc tm rel, o = .done e bk v esc tm rel
+def Out.isRecv (o : Out) (ack : Bool) : Prop := ∃ bk e esc tm sup m cs, o = .recv ack bk e esc tm sup m cs
+def Out.isDone (o : Out) : Prop := ∃ e bk v esc tm sup rel, o = .done e bk v esc tm sup rel
 def Out.isStuck (o : Out) : Prop := ∃ rel, o = .stuck rel
+
+/-! ## sums over stores: the supply of an ERC-20 token -/
+
+/-- sum of the values whose key satisfies `p` -/
+def tsum {κ : Type} (p : κ → Bool) (s : Store κ) : Nat := ((s.filter (fun x => p x.1)).map (·.2)).sum
+
+/-- the coin that backs an ERC-20 token -/
+def denomOfE : ETok → Denom
+  | .nat => .nat | .base => .base | .v l => .vV l
+
+/-- supply of ERC-20 token `t`: the sum of all its balances -/
+def supply (t : ETok) (erc : Store (Addr × ETok)) : Nat := tsum (fun k => decide (k.2 = t)) erc
+
+def supplyOf (erc : Store (Addr × ETok)) : Option ETok → Nat
+  | some t => supply t erc
+  | none => 0
 
 /-! ## bank primitives -/
 
@@ -544,6 +560,7 @@ def doneOut (s' : State) (l : Ch) (p : Pkt) : Out :=
     (if p.tok = .A then sget s'.bal.bank (p.sender, Denom.vA l) else 0)
     (if p.tok = .A then 0 else sget s'.bal.bank (escrow l, bankDenom p.tok l))
     (if p.tok = .A then sget s'.bal.bank (transferMod, Denom.vA l) else 0)
+    (supplyOf s'.bal.erc (ercTokOf p.tok l))
     s'.ctl.rel
 
 def settle (cfg : Cfg) (s : State) (l : Ch) (seq : Seq) (mode : Mode) : State × Out :=
@@ -586,7 +603,7 @@ def stepWith (cfg : Cfg) (s : State) : Op → State × Out
     let d := bankDenom t l
     (s', .recv r.2 (sget b.bank (to, d)) (match ercTokOf t l with | some et => sget b.erc (to, et) | none => 0)
       (if returning t then sget b.bank (escrow l, d) else 0) (if returning t then 0 else sget b.bank (transferMod, d))
-      b.marker b.caller)
+      (supplyOf b.erc (ercTokOf t l)) b.marker b.caller)
   | .send l sender t amt => doSend cfg s l sender t amt true
   | .csend l sender t amt => doSend cfg s l sender t amt false
   | .settle l seq mode => settle cfg s l seq mode
@@ -663,18 +680,18 @@ def showCaller : Option (Option Ch × Nat) → String
 
 def render : Out → String
   | .ok => "ok"
-  | .recv a bk e esc tm m cs =>
+  | .recv a bk e esc tm sup m cs =>
     "ack=" ++ (if a then "ok" else "err") ++ " bk=" ++ toString bk ++ " e=" ++ toString e ++ " esc=" ++ toString esc ++
-      " tm=" ++ toString tm ++ " m=" ++ toString m ++ " cs=" ++ showCaller cs
+      " tm=" ++ toString tm ++ " sup=" ++ toString sup ++ " m=" ++ toString m ++ " cs=" ++ showCaller cs
   | .sent seq e bk esc tm rel =>
     "ok seq=" ++ toString seq ++ " e=" ++ toString e ++ " bk=" ++ toString bk ++ " esc=" ++ toString esc ++
       " tm=" ++ toString tm ++ " rel=" ++ showRel rel
   | .fail => "fail"
   | .noop rel => "noop rel=" ++ showRel rel
   | .stuck rel => "stuck rel=" ++ showRel rel
-  | .done e bk v esc tm rel =>
+  | .done e bk v esc tm sup rel =>
     "done e=" ++ toString e ++ " bk=" ++ toString bk ++ " v=" ++ toString v ++ " esc=" ++ toString esc ++
-      " tm=" ++ toString tm ++ " rel=" ++ showRel rel
+      " tm=" ++ toString tm ++ " sup=" ++ toString sup ++ " rel=" ++ showRel rel
   | .badOp => "bad-op"
 
 def stepLine (s : State) (line : String) : State × String :=
